@@ -24,3 +24,15 @@ Qed.
 Example wf6_nonvacuous : wf 6 (ident 6).
 Proof. split; [reflexivity | repeat constructor]. Qed.
 
+
+(* ---- P is the Kelvin-Mandel matrix of the tensor rotation eps |-> Q eps Q^T,
+        Q = [axis_1 | axis_2 | axis_1 x axis_2] (columns).  Holds for arbitrary axes. *)
+Definition Qmat3 (a1 a2 a3 b1 b2 b3 : R) : mat :=
+  [[a1; b1; a2 * b3 - a3 * b2]; [a2; b2; a3 * b1 - a1 * b3]; [a3; b3; a1 * b2 - a2 * b1]].
+Definition sym3 (e11 e22 e33 e23 e13 e12 : R) : mat := [[e11; e12; e13]; [e12; e22; e23]; [e13; e23; e33]].
+Definition kvec3 (r2 : R) (T : mat) : vec :=
+  [entry T 0 0; entry T 1 1; entry T 2 2; r2 * entry T 1 2; r2 * entry T 0 2; r2 * entry T 0 1].
+Definition Qmat2 (a1 a2 b1 b2 : R) : mat := [[a1; b1]; [a2; b2]].
+Definition sym2 (e11 e22 e12 : R) : mat := [[e11; e12]; [e12; e22]].
+Definition kvec2 (r2 : R) (T : mat) : vec := [entry T 0 0; entry T 1 1; r2 * entry T 0 1].
+
